@@ -5,8 +5,8 @@ operation shapes x statuses x {bundled HttpxTransport, custom pass-through trans
 Model/Dispatch.v `call`; plus a function-level relation for the three copies of _get_primary_response.
 Oracle: the property's conclusion evaluated on the observation (written from the property text).
 
-Mutation testing: set VERIF_SRC_OVERRIDE=<dir containing pyopenapi_gen/> to run the generator, the bundled
-runtime files and the translator from a private copy instead of /repo/src (never edit /repo).
+Mutation testing: VERIF_REPO_ROOT=<scratch copy of the repo> ./check C06 (framework.REPO, tables.SRC and the
+PYTHONPATH set by ./check all follow it; /repo is never edited).
 """
 from __future__ import annotations
 
@@ -16,13 +16,7 @@ import sys
 from concurrent.futures import ThreadPoolExecutor
 from pathlib import Path
 
-_OVR = os.environ.get("VERIF_SRC_OVERRIDE")
-if _OVR:
-    sys.path.insert(0, _OVR)
-    import tables as _tables
-    _tables.SRC = Path(_OVR) / "pyopenapi_gen"
-
-from framework import Check, cbool, clist, cstr, load_corpus  # noqa: E402
+from framework import Check, cbool, clist, cstr, load_corpus
 
 TRUSTED = [
     "Coq 8.16.1 kernel + vm_compute (witness theorems, finite status-table lemmas, correspondence evaluation)",
